@@ -738,6 +738,8 @@ func runC16(e *env) {
 	// ----- JavaScript side -----
 	c16AutoescapeOn(e, g, cases)
 	c16JS(e, src, cases)
+	// ----- json of every value (c16json.go) -----
+	c16JSON(e)
 }
 
 func rawQuote(s string) bool {
